@@ -422,7 +422,7 @@ func GetUnseenCountPerUser(db *sql.DB, mailboxID int64) (int, error) {
 	var count int
 	err := db.QueryRow(`
 		SELECT COUNT(*) FROM message_mailbox
-		WHERE mailbox_id = ? AND (flags IS NULL OR flags NOT LIKE '%\Seen%')
+		WHERE mailbox_id = ? AND (flags IS NULL OR (' ' || flags || ' ') NOT LIKE '% \Seen %')
 	`, mailboxID).Scan(&count)
 	return count, err
 }
